@@ -17,6 +17,8 @@ type Layout struct {
 	Cells  map[cellPos]rune
 	Marks  map[cellPos][]rune // combining marks
 	Cur    cellPos
+	CurAlt *cellPos // second acceptable cell (cursor on a zero-width rune: its base cell or the cell after it)
+	Pads   map[cellPos]bool // last-column cells skipped because a double-width rune did not fit
 	EndRow int  // last row holding (or reserved by) the buffer
 	Filled bool // the buffer ends exactly at the right margin
 	// columns that belong to the text on each row (start column of comparison)
@@ -47,13 +49,17 @@ func stripSGR(s string) string {
 // layoutBuffer lays the buffer out. indent = display width of the prompt's last
 // line; tabN = cells a TAB is shown as.
 func layoutBuffer(w, indent int, buf []rune, cursor, tabN int) *Layout {
-	l := &Layout{Cells: map[cellPos]rune{}, Marks: map[cellPos][]rune{}, From: map[int]int{0: indent}}
+	l := &Layout{Cells: map[cellPos]rune{}, Marks: map[cellPos][]rune{}, From: map[int]int{0: indent}, Pads: map[cellPos]bool{}}
 	r, x := 0, indent
 	last := cellPos{-1, -1}
 	curSet := false
 
 	place := func(ch rune, wd int) {
 		if x+wd > w {
+			for c := x; c < w; c++ {
+				l.Pads[cellPos{r, c}] = true
+			}
+
 			r++
 			x = 0
 
@@ -76,6 +82,11 @@ func layoutBuffer(w, indent int, buf []rune, cursor, tabN int) *Layout {
 		if ch == '\n' {
 			if i == cursor {
 				l.Cur, curSet = cellPos{r, x}, true
+
+				if x >= w { // end of an exactly filled line: either the margin or the next row
+					l.Cur = cellPos{r + 1, 0}
+					l.CurAlt = &cellPos{r, w - 1}
+				}
 			}
 
 			r++
@@ -98,6 +109,14 @@ func layoutBuffer(w, indent int, buf []rune, cursor, tabN int) *Layout {
 
 			if i == cursor {
 				l.Cur, curSet = cellPos{r, x}, true
+
+				if x >= w {
+					l.Cur = cellPos{r + 1, 0}
+				}
+
+				if last.R >= 0 {
+					l.CurAlt = &cellPos{last.R, last.C}
+				}
 			}
 
 			continue
@@ -135,7 +154,7 @@ func layoutBuffer(w, indent int, buf []rune, cursor, tabN int) *Layout {
 
 // checkFrame compares one screen with the layout. r0 is the screen row of the
 // prompt's last line. It returns "" when the frame is right.
-func checkFrame(scr *rig.Screen, r0 int, prompt string, l *Layout, prevEnd int, checkBelow bool) string {
+func checkFrame(scr *rig.Screen, r0 int, prompt string, l *Layout, prevEnd int, checkBelow bool, padNote *string) string {
 	// (1) the prompt
 	if r0 < 0 || r0 >= scr.H {
 		return fmt.Sprintf("prompt row %d outside the screen", r0)
@@ -185,6 +204,10 @@ func checkFrame(scr *rig.Screen, r0 int, prompt string, l *Layout, prevEnd int, 
 					if string(cell.Comb) != wm {
 						return fmt.Sprintf("cell (%d,%d) %q carries marks %q, expected %q", sr, c, cell.R, string(cell.Comb), wm)
 					}
+				}
+			case l.Pads[cellPos{r, c}]:
+				if cell.R != 0 && cell.R != ' ' && padNote != nil && *padNote == "" {
+					*padNote = fmt.Sprintf("cell (%d,%d), the last column, skipped because the double-width character after it did not fit, still holds %q from an earlier frame", sr, c, cell.R)
 				}
 			default:
 				if cell.R != 0 && cell.R != ' ' {
